@@ -75,19 +75,19 @@ def stepOp (wkc : Option Nat) (impl : Option Str) (root : Site) (op : String) : 
   | ["S", a, p] => upd do
     let a ← parseAddr a
     let p ← parsePath p
-    pure (root.modifyAt (Site.addSite p (.node [] [])) a)
+    pure (root.reg (.addSite a p (.node [] [])))
   | ["F", a, p, i] => upd do
     let a ← parseAddr a
     let p ← parsePath p
     let i ← i.toNat?
-    pure (root.modifyAt (Site.addSite p (.leaf i)) a)
+    pure (root.reg (.addSite a p (.leaf i)))
   | ["R", a, p, i, h, attrs] => upd do
     let a ← parseAddr a
     let p ← parsePath p
     let i ← i.toNat?
     let h ← (if h = "h" then some true else if h = "v" then some false else none)
     let attrs ← parseList parseAttr attrs
-    pure (root.modifyAt (Site.addResource p ⟨i, h, attrs⟩) a)
+    pure (root.reg (.addRes a p ⟨i, h, attrs⟩))
   | ["D", a, p] =>
     match parseAddr a, parsePath p with
     | some a, some p =>
@@ -95,7 +95,7 @@ def stepOp (wkc : Option Nat) (impl : Option Str) (root : Site) (op : String) : 
       match root.modifyAt some a with
       | none => .bad
       | some _ =>
-        match root.modifyAt (Site.remove p) a with
+        match root.reg (.remove a p) with
         | some s => .out s "ok"
         | none => .out root "KeyError"
     | _, _ => .bad
